@@ -677,6 +677,10 @@ func ParseSInterP(buf string) frt.Tuple2[string, []string] {
 				panic("escape just before end, wrong")
 			}
 			c2 := buf[i]
+			if c2 == '{' || c2 == '}' {
+				// \{ and \} are literal braces; Go has no such escape.
+				res.Truncate(res.Len() - 1)
+			}
 			res.WriteByte(c2)
 		} else if c == '{' {
 			i++
